@@ -62,9 +62,14 @@ theorem foldlM_inv {α A : Type} (P : A → Prop) (step : A → α → R A)
 /-! ### the loop counter as `int` and as `Nat` -/
 
 theorem decide_cast_eq_zero (i : Nat) : decide ((i : Int) = 0) = (i == 0) := by
-  cases i <;> simp
+  cases i
+  · rfl
+  · simp; omega
 theorem decide_cast_eq_cast (i n : Nat) : decide ((i : Int) = (n : Int)) = (i == n) := by
-  by_cases h : i = n <;> simp [h]
+  by_cases h : i = n
+  · subst h; simp
+  · have : ¬ ((i : Int) = (n : Int)) := by omega
+    simp [h, this]
 
 /-- `last_i = len(xs) - 1` for a non-empty list is the model's truncating `xs.length - 1` -/
 theorem last_cast {α : Type} (xs : List α) (h : xs ≠ []) : ((xs.length : Int) - 1) = ((xs.length - 1 : Nat) : Int) := by
@@ -110,16 +115,26 @@ theorem cutFragments_eq (b : Build) (fnd : Found) :
   unfold cutFinish
   by_cases h : qcPasses fnd.fragment subs = true
   · simp only [h, not_true_eq_false, if_false, if_true]; rfl
-  · simp only [h, not_false_eq_true, if_true]; rfl
+  · simp only [h]; rfl
+
+/-- the keep-start / keep-end flags of pass `i` (swapped for a minus-strand contig) -/
+def cutFlags (f : Fragment) (last i : Nat) : Bool × Bool :=
+  if f.strand = -1 then (i == last, i == 0) else (i == 0, i == last)
+
+theorem cutStep_eq (f : Fragment) (last : Nat) (b : Build) (subs : List Fragment) (i sid : Nat) :
+    cutStep f last (b, subs, i) sid =
+      ((b.store.getD sid default).o.trimFragment f (cutFlags f last i).1 (cutFlags f last i).2 b.nextOid) >>= fun p =>
+      .ok ({ b with store := PyRt.updRes b.store sid p.1, nextOid := b.nextOid + 1 }, subs ++ [p.2], i + 1) := by
+  unfold cutStep cutFlags
+  dsimp only
+  split <;> rfl
 
 /-- a pass moves the counter on by one -/
 theorem cutStep_idx (f : Fragment) (last : Nat) (a : Build × List Fragment × Nat) (sid : Nat)
     (a' : Build × List Fragment × Nat) (h : cutStep f last a sid = .ok a') : a'.2.2 = a.2.2 + 1 := by
   obtain ⟨b, subs, i⟩ := a
-  unfold cutStep at h
-  dsimp only at h
-  split at h
-  cases ht : OverlapResult.trimFragment (b.store.getD sid default).o f ‹Bool› ‹Bool› b.nextOid with
+  rw [cutStep_eq] at h
+  cases ht : OverlapResult.trimFragment (b.store.getD sid default).o f (cutFlags f last i).1 (cutFlags f last i).2 b.nextOid with
   | error e => rw [ht] at h; cases h
   | ok p => rw [ht] at h; cases h; rfl
 
@@ -129,10 +144,9 @@ theorem cutStep_frame (b0 : Build) (f : Fragment) (last : Nat) (a : Build × Lis
     (ha : a.1 = { b0 with store := a.1.store, nextOid := a.1.nextOid })
     (h : cutStep f last a sid = .ok a') : a'.1 = { b0 with store := a'.1.store, nextOid := a'.1.nextOid } := by
   obtain ⟨b, subs, i⟩ := a
-  unfold cutStep at h
-  dsimp only at h ha
-  split at h
-  cases ht : OverlapResult.trimFragment (b.store.getD sid default).o f ‹Bool› ‹Bool› b.nextOid with
+  rw [cutStep_eq] at h
+  dsimp only at ha
+  cases ht : OverlapResult.trimFragment (b.store.getD sid default).o f (cutFlags f last i).1 (cutFlags f last i).2 b.nextOid with
   | error e => rw [ht] at h; cases h
   | ok p =>
     rw [ht] at h; cases h
@@ -144,5 +158,62 @@ theorem cutLoop_frame (b : Build) (f : Fragment) (last : Nat) (xs : List Nat) (s
     a'.1 = { b with store := a'.1.store, nextOid := a'.1.nextOid } :=
   foldlM_inv (fun a => a.1 = { b with store := a.1.store, nextOid := a.1.nextOid }) (cutStep f last)
     (fun a x a' ha hs => cutStep_frame b f last a x a' ha hs) xs (b, subs, i) a' rfl h
+
+/-! ### the two halves of the tie, stated without any generated term -/
+
+/-- `sorted(holders, key=lambda s: s.fragment_start_if_trimmed(frgmnt))` is the model's key pass followed by `cutOrder` -/
+theorem sortedByM_cutKey (store : List Res) (f : Fragment) (xs : List Nat) :
+    PyRt.sortedByM (fun s => (getRes store s).fragmentStartIfTrimmed f) xs = (xs.mapM (cutKey store f)).map cutOrder := by
+  unfold PyRt.sortedByM cutOrder
+  have hk : (fun (x : Nat) => ((getRes store x).fragmentStartIfTrimmed f).map (fun d => (d, x))) = cutKey store f := by
+    funext x
+    unfold cutKey
+    rw [map_eq_bind_pure]
+  rw [hk]
+
+/-- a loop body over `(sub_fragments, store, nextOid)` that computes the flags of pass `i`, calls `trim_fragment` on holder `sid`
+    with a fresh object id, writes the trimmed result back and appends the piece — run over `enumerate(xs)` from
+    `([], b.store, b.nextOid)` — is the model's `foldlM` of `cutStep` -/
+theorem cutLoop_is_forIn {ρ : Type} (f : Fragment) (last : Nat)
+    (body : Int × Nat → List Fragment × List Res × Nat → R (PyRt.Ctl (List Fragment × List Res × Nat) ρ))
+    (hbody : ∀ (i sid : Nat) (subs : List Fragment) (store : List Res) (oid : Nat),
+      body ((i : Int), sid) (subs, store, oid) =
+        ((getRes store sid).trimFragment f (cutFlags f last i).1 (cutFlags f last i).2 oid) >>= fun p =>
+          .ok (.next (subs ++ [p.2], PyRt.updRes store sid p.1, oid + 1)))
+    (xs : List Nat) (b : Build) :
+    PyRt.forIn (PyRt.enumerate xs) ([], b.store, b.nextOid) body
+      = (xs.foldlM (cutStep f last) (b, [], 0)).map (fun a => PyRt.Done.fell (a.2.1, a.1.store, a.1.nextOid)) := by
+  refine forIn_enumFrom_foldlM (fun a => a.2.2) (fun a => (a.2.1, a.1.store, a.1.nextOid)) body (cutStep f last) ?_
+    (cutStep_idx f last) xs (b, [], 0)
+  intro a sid
+  obtain ⟨b', subs, i⟩ := a
+  rw [hbody, cutStep_eq]
+  unfold getRes
+  cases OverlapResult.trimFragment (b'.store.getD sid default).o f (cutFlags f last i).1 (cutFlags f last i).2 b'.nextOid <;> rfl
+
+/-- after the loop the counter `cuts` is still the one of the start -/
+theorem cutLoop_cuts (b : Build) (f : Fragment) (last : Nat) (xs : List Nat) (subs : List Fragment) (i : Nat)
+    (a' : Build × List Fragment × Nat) (h : xs.foldlM (cutStep f last) (b, subs, i) = .ok a') : a'.1.cuts = b.cuts := by
+  rw [cutLoop_frame b f last xs subs i a' h]
+
+/-- … and so is everything but the store and the object-id counter after the whole of `cutFragments` but `cuts` -/
+theorem cutFragments_frame (b b' : Build) (fnd : Found) (h : cutFragments b fnd = .ok b') :
+    b' = { b with store := b'.store, nextOid := b'.nextOid, cuts := b'.cuts } := by
+  rw [cutFragments_eq] at h
+  cases hk : fnd.scaffolds.mapM (cutKey b.store fnd.fragment) with
+  | error e => rw [hk] at h; cases h
+  | ok keyed =>
+    rw [hk, ok_bind] at h
+    cases hl : (cutOrder keyed).foldlM (cutStep fnd.fragment ((cutOrder keyed).length - 1)) (b, [], 0) with
+    | error e => rw [hl] at h; cases h
+    | ok a =>
+      rw [hl, ok_bind] at h
+      have hf := cutLoop_frame b fnd.fragment _ _ _ _ a hl
+      unfold cutFinish at h
+      split at h
+      · cases h
+        dsimp only
+        rw [hf]
+      · cases h
 
 end AgpTpf.ImpCut
